@@ -12,6 +12,7 @@ mod http;
 mod locks;
 mod reader;
 mod conc;
+mod expr;
 mod obs;
 mod prng;
 mod proto;
@@ -107,6 +108,7 @@ fn main() {
         "c04" => reader::run(&args, &mut model),
         "c13" => conc::run_c13(&args, &mut model),
         "c15" => conc::run_c15(&args, &mut model),
+        "c10" | "c11" | "expr-child" => expr::run(&args, &mut model),
         f => {
             eprintln!("unknown family {}", f);
             std::process::exit(2);
